@@ -8,7 +8,7 @@
 EXTENDS Storage, Json, IOUtils
 
 Traces == JsonDeserialize(IOEnv.TRACE_FILE)
-Keys == {"k1", "k2", "k3"}
+Keys == {"k1", "k2", "k3", "address_in"}
 
 VARIABLES tid, l, recs, why, dr
 vars == <<tid, l, recs, why, dr>>
